@@ -206,6 +206,8 @@ class Attribute(_BaseAttribute):
     def __getitem__(self, key):
         if key in self._data:
             return self._data[key]
+        if self.elemsize>1:
+            return self.default_value.copy() # a fresh vector: absent entries must not share one mutable default
         return self.default_value
 
     def __setitem__(self, key, value):
